@@ -191,7 +191,14 @@ impl ConsumerGroup {
         self.create_consumer(consumer.to_string());
         
         // Add each entry to pending list
+        let mut previous_owners = Vec::new();
         for entry in &entries {
+            // An entry that is still pending (XGROUP SETID moved the group back) changes
+            // owner: it leaves its previous owner before it is added for the new one
+            if let Some(old_entry) = pending.remove_entry(&entry.id) {
+                previous_owners.push(old_entry.consumer);
+            }
+            
             let pending_entry = PendingEntry {
                 id: entry.id,
                 consumer: consumer.to_string(),
@@ -205,6 +212,11 @@ impl ConsumerGroup {
         
         // Update consumer's pending count
         let mut consumers = self.consumers.write().unwrap();
+        for previous_owner in &previous_owners {
+            if let Some(old_consumer) = consumers.get_mut(previous_owner) {
+                old_consumer.pending_count = old_consumer.pending_count.saturating_sub(1);
+            }
+        }
         if let Some(consumer_obj) = consumers.get_mut(consumer) {
             consumer_obj.pending_count += entries.len();
             consumer_obj.last_seen = now;
@@ -213,7 +225,7 @@ impl ConsumerGroup {
         
         // Update total pending
         let mut total = self.total_pending.lock().unwrap();
-        *total += entries.len();
+        *total += entries.len() - previous_owners.len();
         
         // Update last delivered ID
         if let Some(last_entry) = entries.last() {
